@@ -9,6 +9,8 @@
 //	c22 s                 the declaration of pkix.RDNSequence (reflection: slice types, the "SET" name suffix, field order and struct
 //	                      tags through the real parseFieldParameters; interface{} rendered as the string kind that stands in
 //	                      for it) against the model's schema term rdnSchema
+//	c22 u <der hex>       the parse direction on arbitrary DER (see any.go): asn1.Unmarshal into pkix.RDNSequence (ANY arm of
+//	                      parseField) -> FillFromRDNSequence -> ToRDNSequence (-> asn1.Marshal when all values are strings)
 //	c22 d <name>          the DER leg: asn1.Marshal(ToRDNSequence(name)) -> asn1.Unmarshal (strict) -> FillFromRDNSequence;
 //	                      the Lean side runs the same pipeline through its model of encoding/asn1 (ZV.Model.C18) on the schema
 //	                      SEQUENCE OF SET OF SEQUENCE {OID, string}; bytes, decoded sequence and filled Name are compared
@@ -604,6 +606,8 @@ func exec(line string) zv.Out {
 	f := strings.Fields(line)
 	var tags []string
 	switch f[1] {
+	case "u":
+		return execU(f[2])
 	case "s":
 		return zv.Out{Go: schemaText(reflect.TypeOf(pkix.RDNSequence(nil))), Tags: []string{"s:schema"}}
 	case "t":
@@ -1053,6 +1057,16 @@ func gen(g *zv.Gen) {
 		g.Emitf("c22 f %s=o4.4142", row.oid)
 		g.Emitf("c22 t X:%s=s4142", row.oid)
 	}
+	// every conjunct of the prefix guard `len(t) == 4 && t[0] == 2 && t[1] == 5 && t[2] == 4` falsified alone, for every switch key
+	for _, k := range []int{3, 4, 5, 6, 7, 8, 9, 10, 11, 17, 42, 97} {
+		for _, pat := range []string{"1.5.4.%d", "0.5.4.%d", "2.4.4.%d", "2.6.4.%d", "2.5.3.%d", "2.5.5.%d", "2.5.4.%d.0", "2.5.4.4.%d", "5.4.%d", "2.2.5.4.%d"} {
+			g.Emitf("c22 f "+pat+"=s4142", k)
+		}
+	}
+	// proper prefixes / extensions of the else-if chain OIDs
+	for _, o := range []string{"0.9.2342.19200300.100.1", "0.9.2342.19200300.100.1.25.0", "1.2.840.113549.1.9", "1.2.840.113549.1.9.1.0", "1.3.6.1.4.1.311.60.2.1", "1.3.6.1.4.1.311.60.2.1.3.0", "1.3.6.1.4.1.311.60.2.1.0"} {
+		g.Emitf("c22 f %s=s4142", o)
+	}
 	for _, o := range extraOIDs {
 		g.Emitf("c22 f %s=s4142", o)
 		g.Emitf("c22 t X:%s=s4142", o)
@@ -1140,6 +1154,8 @@ func gen(g *zv.Gen) {
 		}
 		g.Emit("c22 d " + line)
 	}
+	// the parse direction on DER built by hand (ANY arm of parseField)
+	genForeign(g)
 	// fill into a populated name
 	n = g.N(1000, 40000)
 	for i := 0; i < n; i++ {
@@ -1149,5 +1165,5 @@ func gen(g *zv.Gen) {
 
 func init() {
 	zv.Register(&zv.Prop{ID: "C22", Topic: "c22", Gen: gen, Exec: exec,
-		Rule: "t: Names with 0-3 values per field (19 fields, ExtraNames, Names) from a pool of empty/printable/UTF-8/special-character/invalid-UTF-8 values, every field alone with every pool value, every pair of fields; f: every sequence of <=2 RDNs x <=2 attributes over a small alphabet (exhaustive), canonical / perturbed / free-form random sequences incl. nil, empty, empty RDNs, unknown and non-emitted types, mixed RDNs, non-string values; a: fill into a populated Name; d: Names (every field alone with every pool value, 1 and 3 values; random names with string-valued ExtraNames; fields with 2-7 values; boundary OIDs) through Marshal -> strict Unmarshal -> Fill, compared with the Lean pipeline over its encoding/asn1 model (bytes, decoded sequence, filled Name, membership in the theorem's domain). A case is one distinct line. T3 = independent field/OID table in the harness: exact equality on the pure legs, per-RDN multiset equality + byte-identical re-marshal on the DER leg, canonical <=> re-emission reproduces the sequence"})
+		Rule: "t: Names with 0-3 values per field (19 fields, ExtraNames, Names) from a pool of empty/printable/UTF-8/special-character/invalid-UTF-8 values, every field alone with every pool value, every pair of fields; f: every sequence of <=2 RDNs x <=2 attributes over a small alphabet (exhaustive), canonical / perturbed / free-form random sequences incl. nil, empty, empty RDNs, unknown and non-emitted types, mixed RDNs, non-string values; a: fill into a populated Name; d: Names (every field alone with every pool value, 1 and 3 values; random names with string-valued ExtraNames; fields with 2-7 values; boundary OIDs) through Marshal -> strict Unmarshal -> Fill, compared with the Lean pipeline over its encoding/asn1 model (bytes, decoded sequence, filled Name, membership in the theorem's domain). A case is one distinct line. u: DER built by hand, independent of encoding/asn1 (every table attribute type x every universal tag 0..30 x 5 contents, every identifier octet, every pool value under every string tag incl. BMPString, UTCTime/GeneralizedTime bodies, a certificate-style name and all its truncations, Marshal outputs, random names over 19 value kinds with structural faults: SET/SEQUENCE swapped, missing/extra/reordered members, empty SETs, truncation, trailing bytes, bit flips, wrong lengths) through the real Unmarshal -> Fill -> ToRDNSequence -> Marshal, compared with the model of the ANY arm (ZV.Model.C22Any). T3 = independent field/OID table in the harness, plus on u an independent element scanner with its own table of the tags that become Go strings: exact equality on the pure legs, per-RDN multiset equality + byte-identical re-marshal on the DER leg, canonical <=> re-emission reproduces the sequence"})
 }
